@@ -358,6 +358,9 @@ func (u *universe) finish(all []*uVersion, r *rand.Rand) {
 			dv.rev = drev.id
 			repo.byRev[drev.id] = dv
 			repo.refs[fmt.Sprintf("dev%d", len(repo.refs))] = drev.id
+			if r.IntN(3) == 0 {
+				repo.refs[fmt.Sprintf("vnext%d", len(repo.refs))] = drev.id // a branch whose name starts like a version but is none
+			}
 			repo.refs["main"] = drev.id
 			u.devs = append(u.devs, dv)
 		}
